@@ -77,7 +77,7 @@ func verif_C19_line() { verifLineHarness("C19") }
 // the line reaching a handler or the backend.
 func verif_C19_limit() {
 	max := 24
-	pos := verifChoice(5)
+	pos := verifChoice(6)
 	ll := nondetInt(max-3, max+4) // total line length including CRLF
 	seg := verifChoice(3)         // 0: one segment, 1: 1 octet per read, 2: 5 octets per read
 	be := &vbackend{}
@@ -85,6 +85,7 @@ func verif_C19_limit() {
 	s.MaxLineLength = max
 	in := []byte{}
 	nmail := 0
+	var chunkCuts []int
 	switch pos {
 	case 3: // between two chunks of a transfer
 		in = append(in, "EHLO c\r\nMAIL FROM:<a@v>\r\nRCPT TO:<b@v>\r\nBDAT 2\r\nab"...)
@@ -92,6 +93,12 @@ func verif_C19_limit() {
 	case 4: // right after the LAST chunk
 		in = append(in, "EHLO c\r\nMAIL FROM:<a@v>\r\nRCPT TO:<b@v>\r\nBDAT 2 LAST\r\nab"...)
 		pos, nmail = 4, 1
+	case 5: // the chunk in a later read than its BDAT line, its end in one read with the next command
+		in = append(in, "EHLO c\r\nMAIL FROM:<a@v>\r\nRCPT TO:<b@v>\r\nBDAT 6 LAST\r\n"...)
+		chunkCuts = append(chunkCuts, len(in))
+		in = append(in, "abcdefNOOP\r\n"...)
+		chunkCuts = append(chunkCuts, len(in))
+		pos, nmail = 5, 1
 	default:
 		for i := 0; i < pos; i++ {
 			in = append(in, "NOOP\r\n"...)
@@ -106,7 +113,7 @@ func verif_C19_limit() {
 	assume(len(probe) == ll)
 	in = append(in, probe...)
 	in = append(in, "MAIL FROM:<a@v>\r\n"...)
-	vc := &vconn{in: in, final: io.EOF}
+	vc := &vconn{in: in, final: io.EOF, cuts: chunkCuts}
 	switch seg {
 	case 1:
 		vc.seg = 1
